@@ -14,6 +14,14 @@ class StringV:
     def __repr__(self):
         return f"StringV({self.value})"
 
+    def __eq__(self, other):
+        if not isinstance(other, StringV):
+            return NotImplemented
+        return self.value == other.value
+
+    def __hash__(self):
+        return hash(self.value)
+
 
 def StrConcat(*args):
     """
